@@ -268,9 +268,11 @@ def zone(x, at):
 def codes_for(dm):
     """event codes that spell a running distance of dm metres"""
     out = [str(dm)]
-    if dm % 10 == 0 and dm >= 1000:
+    if dm % 10 == 0:                      # N[.dd]K, below one kilometre too (0.75K, 0.4K, 0.05K)
         k = dm / 1000.0
         out.append(('%.2f' % k).rstrip('0').rstrip('.') + 'K')
+        if dm < 1000 and dm % 100 == 0:
+            out.append('%.2fK' % k)      # 0.50K
     return out
 
 
@@ -345,6 +347,10 @@ def run15(tier):
         if k < 40:
             dists.append(((1609 * (100 * k + 50)) // 100, '%d.5M' % k))
             dists.append(((1609 * (100 * k + 25)) // 100, '%d.25M' % k))
+    for q in range(2, 100):             # below one mile: 0.02M .. 0.99M
+        if (1609 * q) // 100 >= 20:
+            dists.append(((1609 * q) // 100, ('0.%02d' % q).rstrip('0') + 'M'))
+    dists.sort(key=lambda x: x[0])
     # every process serves all lanes (both table years, both genders, all ages) for its share of the distances
     chunk = max(200, -(-len(dists) // (common.NCPU * (2 if quick else 16))))
     jobs = [(lanes, dists[i:i + chunk]) for i in range(0, len(dists), chunk)]
